@@ -210,6 +210,12 @@ impl<R: DynamicChannelRegion> RegionHandler for DynamicChannelPlan<R> {
                 }
             }
             Frame::Data => {
+                // A CFList or a mask kept from an earlier session can leave no channel
+                // that is both defined and enabled. Fall back to the default mask (the
+                // join channels always exist) instead of sampling forever below.
+                if !self.channel_mask_validate(&self.channel_mask, None) {
+                    self.channel_mask = Default::default();
+                }
                 let mut channel = self.get_random_in_range(rng);
                 loop {
                     if self.channel_mask.is_enabled(channel).unwrap()
